@@ -187,15 +187,12 @@ def arc_length_3point(p_start: NPPointType, p_btw: NPPointType, p_end: NPPointTy
     rad_btw = p_btw - centre
     rad_end = p_end - centre
 
-    mag1 = norm(rad_start)
-    mag3 = norm(rad_end)
-
     # The radius from r1 and from r3 will be identical
     radius = rad_end
 
-    # Determine the angle
-    # the quotient can leave [-1, 1] by a rounding error (half circles)
-    angle = np.arccos(np.clip((rad_start.dot(rad_end)) / (mag1 * mag3), -1, 1))
+    # Determine the angle (between 0 and pi);
+    # arccos of the normalized dot product has no digits left for shallow arcs
+    angle = np.arctan2(norm(np.cross(rad_start, rad_end)), rad_start.dot(rad_end))
 
     # Check if the vectors define an exterior or an interior arcEdge
     if np.dot(np.cross(rad_start, rad_btw), np.cross(rad_start, rad_end)) < 0:
